@@ -93,8 +93,9 @@ class Lib:
         p = _libc.malloc(n)
         if p is None:
             p = 0
-        if n:
-            ctypes.memset(p, self.fill if fill is None else fill, n)
+        f = self.fill if fill is None else fill
+        if n and f is not None and f >= 0:
+            ctypes.memset(p, f, n)      # fill < 0: leave the block as malloc returned it (memcheck: undefined)
         self._live.append(p)
         self.sizes[p] = n
         return p
